@@ -82,6 +82,20 @@ extern Counters counters;
 namespace sr {
 
 // ---------------------------------------------------------------- targets
+// the event type of the dispatcher / queue targets: a key whose copies are fault points (the remover utilities keep copies of the
+// event next to the handles they record; a throw there must leave nothing attached that the remover does not know about)
+struct EvKey
+{
+	int v;
+	EvKey(int v_) : v(v_) {}
+	EvKey(const EvKey & o) : v(o.v) { faultPoint(F_COPY); }
+	EvKey & operator = (const EvKey & o) { faultPoint(F_COPY); v = o.v; return *this; }
+	bool operator < (const EvKey & o) const { return v < o.v; }
+	bool operator == (const EvKey & o) const { return v == o.v; }
+};
+} // namespace sr
+namespace std { template <> struct hash<sr::EvKey> { size_t operator() (const sr::EvKey & k) const { return std::hash<int>()(k.v); } }; }
+namespace sr {
 struct ListTarget
 {
 	typedef eventpp::CallbackList<void (int)> T;
@@ -125,8 +139,8 @@ private:
 	static void qtrig(T & t, int k, int v, char (*)[2]) { t.enqueue(k, v); t.process(); }
 	static void qtrig(T & t, int k, int v, char (*)[1]) { t.dispatch(k, v); }
 };
-typedef DispTargetT<eventpp::EventDispatcher<int, void (int)>, false> DispTarget;
-typedef DispTargetT<eventpp::EventQueue<int, void (int)>, true> QueueTarget;
+typedef DispTargetT<eventpp::EventDispatcher<EvKey, void (int)>, false> DispTarget;
+typedef DispTargetT<eventpp::EventQueue<EvKey, void (int)>, true> QueueTarget;
 
 // ScopedRemover is outside C15's quantifier for heterogeneous targets (and its removeListener does not compile for them): a stub
 struct NoScoped
